@@ -106,6 +106,7 @@ type ValCase struct {
 	Seed    uint64 `json:"seed"`
 	Profile int    `json:"profile"`
 	Mut     int    `json:"leaf_mutations"`
+	StrLen  int    `json:"force_string_len,omitempty"`
 	NaN     bool   `json:"allow_nan,omitempty"`
 }
 
@@ -137,6 +138,18 @@ func (reg *Registry) Make(c ValCase) (Object, Item, error) {
 		leaves := m.collect(reflect.ValueOf(obj))
 		for i := 0; i < c.Mut && len(leaves) > 0; i++ {
 			m.mutateLeaf(leaves[int(m.r.next()%uint64(len(leaves)))])
+		}
+	}
+	// boundary strings: every string / []byte leaf becomes StrLen bytes of 'x'
+	if c.StrLen > 0 && !strings.HasSuffix(fmt.Sprintf("%T", obj), "TLItemImpl") {
+		m := &mutator{r: NewRnd(1, 0)}
+		for _, l := range m.collect(reflect.ValueOf(obj)) {
+			switch l.Kind() {
+			case reflect.String:
+				l.SetString(strings.Repeat("x", c.StrLen))
+			case reflect.Slice:
+				l.SetBytes([]byte(strings.Repeat("x", c.StrLen)))
+			}
 		}
 	}
 	return obj, it, nil
